@@ -68,9 +68,9 @@ def args_of(opts):
     if opts.get('all'):
         args.append('--all')
     if opts.get('at_level') is not None:
-        args += ['--at-level', str(opts['at_level'])]
+        args += ['--at-level=%d' % opts['at_level']]
     if opts.get('only_level') is not None:
-        args += ['--only-level', str(opts['only_level'])]
+        args += ['--only-level=%d' % opts['only_level']]
     if opts.get('repeat', 1) and opts.get('repeat', 1) > 1:
         args += ['--repeat', str(opts['repeat'])]
     if opts.get('shuffle') is not None:
